@@ -52,7 +52,9 @@ def Crash.name : Crash → String
   | .nullHook => "null-call" | .useAfterFree => "use-after-free" | .doubleFree => "double-free"
   | .overflow => "heap-overflow" | .fuel => "fuel"
 
-/-- `cap` = allocated size, `used` = the part the owner has filled, `val` = abstract content. -/
+/-- `cap` = allocated size, `used` = the part the owner has filled, `val` = abstract content: *everything* stored in the
+used part (for the string tables of the xattr writer: index, use count and bytes of every bucket; for a cached block:
+all `used` bytes). -/
 structure Buf where
   cap : Nat
   used : Nat
@@ -177,6 +179,9 @@ inductive BufAct where
   | dup       -- fresh allocation of the original's allocated size, contents copied
   | trim      -- fresh allocation of the *used* size only, contents copied
   | alias     -- pointer copied: both objects own the same buffer
+  | garble    -- fresh allocation of the right size whose contents are *not* (all of) the original's — e.g. only a prefix
+              -- of a cached block, or string buckets without their use counts (`str_table_copy` must carry them over:
+              -- `sqfs_xattr_writer_flush` stores a value out of line iff its count is ≥ 2)
   deriving DecidableEq, Repr
 
 inductive ViewAct where
@@ -214,7 +219,7 @@ sizes a fresh buffer by the used part only — belongs to a kind that records th
 exactly what it acquired. -/
 def WfDesc (d : CopyDesc) : Prop :=
   d.header ≠ .zeroed ∧ (∀ a ∈ d.bufs, a ≠ .alias) ∧ (∀ v ∈ d.views, v.1 = .repoint) ∧ (∀ r ∈ d.refs, r ≠ .alias) ∧
-  (.trim ∈ d.bufs → d.capAware = true) ∧ d.onFail = .unwind
+  (.trim ∈ d.bufs → d.capAware = true) ∧ d.onFail = .unwind ∧ (∀ a ∈ d.bufs, a ≠ .garble)
 
 instance (d : CopyDesc) : Decidable (WfDesc d) := by unfold WfDesc; infer_instance
 
@@ -263,7 +268,7 @@ def copyBufs (h : Heap) : List (Option Nat) → List BufAct → Heap × List (Op
           -- `array_init(dst, size, 0)`: nothing is allocated, the copy's pointer is NULL
           consSlot none (copyBufs h bs as)
         else
-          match allocBuf h (if a = .trim then ⟨bf.used, bf.used, bf.val⟩ else bf) with
+          match allocBuf h (if a = .trim then ⟨bf.used, bf.used, bf.val⟩ else if a = .garble then ⟨bf.cap, bf.used, bf.val + 1⟩ else bf) with
           | (h1, none) => (h1, [], false)
           | (h1, some id) => consSlot (some id) (copyBufs h1 bs as)
 
